@@ -56,6 +56,8 @@ func c11Programs(thorough bool) []c11Program {
 		{Name: "update-create", Files: tu, Args: []string{"UPDATE t SET b = 'z'; CREATE TABLE `n.csv` (c1); INSERT INTO n VALUES (1);"}, Created: []string{"n.csv"}},
 		{Name: "out-nonempty", Files: tu, Args: []string{"-o", "out.csv", "SELECT * FROM t"}, ReadOnly: true, Created: []string{"out.csv"}},
 		{Name: "out-empty", Files: tu, Args: []string{"-o", "out.csv", "-f", "csv", "-N", "SELECT * FROM t WHERE a = 99"}, ReadOnly: true},
+		{Name: "out-empty-chdir", Files: map[string]string{"t.csv": t, "sub/t.csv": t, "sub/out.csv": "keep\n"}, Args: []string{"-o", "out.csv", "CHDIR 'sub'; SELECT * FROM t WHERE a = 99;"}, ReadOnly: true},
+		{Name: "out-chdir-error", Files: map[string]string{"t.csv": t, "sub/t.csv": t, "sub/out.csv": "keep\n"}, Args: []string{"-o", "out.csv", "CHDIR 'sub'; SELECT nosuch FROM t;"}, ReadOnly: true, WantFail: true},
 		{Name: "source", Files: map[string]string{"t.csv": t, "u.csv": u, "prog.sql": src}, Args: []string{"-s", "prog.sql"}},
 		{Name: "update-then-error", Files: tu, Args: []string{"UPDATE t SET b = 'z'; SELECT nosuch FROM u;"}, WantFail: true},
 		{Name: "create-then-error", Files: tu, Args: []string{"CREATE TABLE `n.csv` (c1); INSERT INTO n VALUES (1); UPDATE u SET c = 1/0;"}, WantFail: true},
@@ -137,6 +139,7 @@ func c11Judge(c *core.Ctx, dir string, p c11Program, out procx.Outcome, final ma
 		if excusedName == "" {
 			return false
 		}
+		n = filepath.Base(n)
 		if n == excusedName {
 			return true
 		}
@@ -152,8 +155,18 @@ func c11Judge(c *core.Ctx, dir string, p c11Program, out procx.Outcome, final ma
 	sort.Strings(names)
 	for _, n := range names {
 		_, initial := p.Files[n]
+		if strings.HasSuffix(n, "/") {
+			for f := range p.Files {
+				if strings.HasPrefix(f, n) {
+					initial = true // a directory of the initial state
+				}
+			}
+			if initial {
+				continue
+			}
+		}
 		switch {
-		case strings.HasPrefix(n, "."):
+		case strings.HasPrefix(filepath.Base(n), "."):
 			if !initial && !isExcused(n) {
 				kind := "lock"
 				if strings.HasSuffix(n, ".rlock") {
@@ -196,7 +209,7 @@ func c11Judge(c *core.Ctx, dir string, p c11Program, out procx.Outcome, final ma
 	}
 	for n, old := range p.Files {
 		got, exists := snap[n]
-		if strings.HasPrefix(n, ".") {
+		if strings.HasPrefix(filepath.Base(n), ".") {
 			if !exists {
 				c.Violate("foreign-control-file-removed:"+cls, where+": the pre-existing "+n+" (not created by this process) was removed", payload)
 			}
@@ -323,6 +336,9 @@ func c11Signal2Env(k int, arg string) []string {
 }
 
 func c11Replay(c *core.Ctx, payload json.RawMessage) {
+	if c11CompetingReplay(c, payload) {
+		return
+	}
 	var p c11Payload
 	if err := json.Unmarshal(payload, &p); err != nil {
 		fmt.Println(err)
